@@ -44,6 +44,8 @@ func init() {
 			{ID: "C19-R18", Title: "encodings are chosen by options, not by data", Floor: 1, Run: encodingsAreChosenByOptionsNotByData},
 			{ID: "C19-R19", Title: "padded encodings see the whole input", Floor: 2, Run: paddedEncodingsSeeTheWholeInput},
 			{ID: "C19-R20", Title: "module builtins call the Go function they are named after", Floor: 30, Run: moduleFunctionsCallTheirNamesake},
+			{ID: "C19-R21", Title: "encoded text is not edited", Floor: 1, Run: encodedTextIsNotEdited},
+			{ID: "C19-R22", Title: "script-supplied sizes are tested before make (shared with C16-R27)", Floor: 3, Run: scriptSizesAreTestedBeforeMake},
 		},
 	})
 }
